@@ -116,10 +116,24 @@ class FnInfo:
 class Unit:
     """one Rust source file -> one Lean namespace"""
 
-    def __init__(self, repo, rel, ns, const_files=(), externals=None, struct_files=()):
+    def __init__(self, repo, rel, ns, const_files=(), externals=None, struct_files=(), views=None, rewrite=None, error_ctors=None, compact_guards=False):
+        self.compact_guards = compact_guards   # `if c { policy_err!(..) }` -> one step `Rs.policyErrIf` (no join points)
+        self.error_ctors = error_ctors or {}   # error constructor function -> tag prefix (the argument list is appended)
         self.repo, self.rel, self.ns = repo, rel, ns
-        self.fi = FileIndex(rel, open(repo.rstrip("/") + "/" + rel).read())
+        src = open(repo.rstrip("/") + "/" + rel).read()
+        self.rewrites = []          # (rule name, number of applications): trusted source normalisations, listed in the output
+        self.rewrite_failed = {}    # (impl, name) -> why: functions whose normalisation did not apply as declared
+        if rewrite is not None:
+            src = rewrite(src, self.rewrites, self.rewrite_failed)
+        self.fi = FileIndex(rel, src)
         self.struct_src = {n: rel for n in self.fi.structs}
+        if views:
+            # trusted *views* of library types: struct declarations (Rust syntax) listing the fields the translated
+            # code may read; they never override a struct of the file itself
+            idx = FileIndex("<views>", views)
+            for n, fields in idx.structs.items():
+                if n not in self.fi.structs:
+                    self.fi.structs[n] = fields; self.struct_src[n] = "trusted view declared in translate/x_fn.py"
         for r in struct_files:      # struct declarations of other files, used as local structures
             idx = FileIndex(r, open(repo.rstrip("/") + "/" + r).read())
             for n, fields in idx.structs.items():
@@ -129,7 +143,7 @@ class Unit:
         self.externals = externals or {}   # name -> {"params": [rust type str], "ret": rust type str}
         self.fns = {}        # (impl, name) -> FnInfo  (translated)
         self.order = []      # emission order
-        self.failed = {}     # (impl, name) -> message
+        self.failed = dict(self.rewrite_failed)     # (impl, name) -> message  (fail closed)
         self.used_fields = {}  # struct -> ordered list of fields
         self.used_enums = []
         self.in_progress = set()
@@ -283,6 +297,10 @@ class Unit:
              "/-! Function bodies translated from `%s` by translate/rs2lean.py (semantics: Prim/Rs.lean)." % self.rel,
              "    Structures list only the fields read or written by the translated functions. -/",
              "namespace %s" % self.ns, "open VlsModel", ""]
+        if self.rewrites:
+            L[3:3] = ["/-! Source normalisations applied before translation (trusted, declared in translate/x_fn.py; each rule must",
+                      "    apply exactly the declared number of times, otherwise nothing of this file is translated):"] + \
+                     ["    * %s  (%d×)" % (n, c) for n, c in self.rewrites] + ["-/"]
         for en in self.used_enums:
             L.append("inductive %s" % en)
             L.append("  " + " ".join("| %s" % lid(v) for v in self.fi.enums[en]))
@@ -339,8 +357,14 @@ class FnTranslator:
         return "%s_%d" % (base, self.n)
 
     def add_ext(self, name, ty):
-        if (name, ty) not in self.exts:
+        # one parameter per external name; the Lean type of a declared external is rendered again at emission time
+        # (Unit.ext_specs), when all used fields / opaque parameters of the structures it mentions are known
+        if name not in [n for n, _ in self.exts]:
             self.exts.append((name, ty))
+
+    def note_ext_opaque(self, o):
+        if not hasattr(self, "ext_ops"): self.ext_ops = []
+        if o not in self.ext_ops: self.ext_ops.append(o)
 
     # ---- entry
     def run(self):
@@ -388,6 +412,7 @@ class FnTranslator:
         info.has_self = bool(params) and params[0][0] == "self"
         info.monadic = self.is_result or monadic(ir)
         info.exts = self.exts
+        info.ext_ops = list(getattr(self, "ext_ops", []))
         info.ir = ir
         info.dropped = self.dropped
         info.needs_deq = self.needs_deq
@@ -520,6 +545,11 @@ class FnTranslator:
             term, ty = self.expr(e[2][0], env, pre, ("str",))
             self.dropped.append("message of policy_error(..)")
             return term
+        if e[0] == "call" and e[1][0] == "path" and e[1][1][-1] in self.u.error_ctors and len(e[2]) == 1:
+            # declared error constructor carrying a list of indices: tag = "<prefix> " ++ toString list
+            term, ty = self.expr(e[2][0], env, pre, None)
+            if ty[0] != "vec" or not is_uint(ty[1]): raise RsError("error constructor argument outside the subset")
+            return '("%s " ++ toString %s)' % (self.u.error_ctors[e[1][1][-1]], term)
         if e[0] == "mcall" and e[2] == "into":
             return self.err_tag(e[1], env, pre)
         raise RsError("error value outside the subset")
@@ -552,7 +582,7 @@ class FnTranslator:
     def has_try(self, e):
         if isinstance(e, tuple):
             if e and e[0] == "try": return True
-            if e and e[0] == "macro" and e[1] == "policy_err": return True
+            if e and e[0] == "macro" and e[1] in ("policy_err", "transaction_format_err"): return True
             if e and e[0] == "macro": return False
             return any(self.has_try(x) for x in e)
         if isinstance(e, list):
@@ -685,6 +715,31 @@ class FnTranslator:
             pre = []
             env2 = self.assign(e, env, pre)
             return self.wrap(pre, cont(env2))
+        if k == "if" and self.u.compact_guards and e[3] is None:
+            g = self.guard_macro(e[2])
+            if g is not None:
+                pre = []
+                c, ct = self.expr(e[1], env, pre, BOOL)
+                self.check_ty(ct, BOOL, "if condition")
+                for lg in g[1]:
+                    self.dropped.append("%s! at line %d (logging: arguments not evaluated)" % (lg[1], lg[3]))
+                m = g[0]
+                a = split_macro_args(m[2], self.u.rel)
+                if a[0] != ("path", ["self"]): raise RsError("%s! on something else than self" % m[1])
+                if not self.is_result: raise RsError("%s! in a function that does not return Result" % m[1])
+                ct_ = c if c.startswith("(") or " " not in c else "(" + c + ")"
+                if m[1] == "policy_err":
+                    if not (self.trait_self or "self" in env): raise RsError("policy_err! without self")
+                    tag, t = self.expr(a[1], env, pre, ("str",))
+                    self.check_ty(t, ("str",), "policy_err! tag")
+                    self.add_ext("policy_filter_err", "String → Bool")
+                    self.dropped.append("message arguments of policy_err! at line %d" % m[3])
+                    pre.append(("bind", "_", MCall("Rs.policyErrIf policy_filter_err %s %s" % (tag, ct_))))
+                else:
+                    if a[1][0] != "str": raise RsError("transaction_format_err! without a literal tag")
+                    self.dropped.append("tag %s and message arguments of transaction_format_err! at line %d" % (a[1][1], m[3]))
+                    pre.append(("bind", "_", MCall("Rs.failIf \"transaction-format\" %s" % ct_)))
+                return self.wrap(pre, cont(env))
         if k in ("if", "iflet", "match", "block"):
             if self.has_return(e):
                 # the rest of the function is appended to every branch (fail closed on shadowing)
@@ -727,6 +782,21 @@ class FnTranslator:
         if k == "unit":
             return cont(env)
         raise RsError("expression statement outside the subset: %s" % k)
+
+    def guard_macro(self, blk):
+        """`{ [log!(..);]* policy_err!(..) | transaction_format_err!(..) [;] }` -> (macro, [log macros]) else None"""
+        if blk[0] != "block": return None
+        items = [it for it in blk[1]]
+        if blk[2] is not None: items = items + [("expr", blk[2])]
+        logs = []
+        for it in items[:-1]:
+            if it[0] == "expr" and it[1][0] == "macro" and it[1][1] in LOG_MACROS: logs.append(it[1])
+            else: return None
+        if not items: return None
+        last = items[-1]
+        if last[0] == "expr" and last[1][0] == "macro" and last[1][1] in ("policy_err", "transaction_format_err"):
+            return last[1], logs
+        return None
 
     def control(self, e, env, fin):
         """if / if-let / match whose branches are finished by fin(env, tail_ast)"""
@@ -839,6 +909,16 @@ class FnTranslator:
             self.dropped.append("message arguments of policy_err! at line %d" % line)
             pre.append(("bind", "_", MCall("Rs.policyErr policy_filter_err %s" % tag)))
             return
+        if name == "transaction_format_err":
+            # vls-core/src/policy/error.rs: `return Err(transaction_format_error(format!(..)))` - unconditional (the
+            # policy filter is not consulted and the tag argument is not part of the error value)
+            a = split_macro_args(toks, self.u.rel)
+            if a[0] != ("path", ["self"]): raise RsError("transaction_format_err! on something else than self")
+            if a[1][0] != "str": raise RsError("transaction_format_err! without a literal tag")
+            if not self.is_result: raise RsError("transaction_format_err! in a function that does not return Result")
+            self.dropped.append("tag %s and message arguments of transaction_format_err! at line %d" % (a[1][1], line))
+            pre.append(("bind", "_", MCall("(Rs.fail \"transaction-format\" : Rs.M Unit)")))
+            return
         if name in ("panic", "unreachable", "unimplemented", "todo"):
             pre.append(("bind", "_", MCall("(Rs.panic : Rs.M Unit)")))
             return
@@ -927,15 +1007,18 @@ class FnTranslator:
 
     def for_stmt(self, e, env, cont):
         _, pat, it, body = e
-        if self.has_return(body) or self.has_try(body):
+        # `?` / policy_err! / transaction_format_err! inside the body of a loop of a Result-returning function only
+        # leave the function with an error: in the outcome monad that is the failure of `List.foldlM`, which stops
+        # the loop exactly there.  `return` (a non-error exit) stays outside the subset.
+        if self.has_return(body) or (self.has_try(body) and not self.is_result):
             raise RsError("return or ? inside a for loop is outside the subset")
         pre = []
         lst, elt = self.iter_expr(it, env, pre)
         A = [("self" if env[v][0] == "alias" else v) for v in self.assigned(body, [], set()) if v in env]
         A = [v for i, v in enumerate(A) if v not in A[:i]]
-        if not A:
+        if not A and not self.has_try(body):
             raise RsError("for loop without effect on outer variables")
-        tup = lid(A[0]) if len(A) == 1 else "(" + ", ".join(lid(v) for v in A) + ")"
+        tup = "()" if not A else (lid(A[0]) if len(A) == 1 else "(" + ", ".join(lid(v) for v in A) + ")")
         env2 = dict(env)
         xp = self.pat(pat, elt, env2)
         def fin2(envb, t):
@@ -943,7 +1026,11 @@ class FnTranslator:
                 return self.stmt_expr(t, [], None, envb, fin2)
             return P(tup)
         bir = self.stmts(body[1], body[2], env2, fin2)
-        if monadic(bir):
+        if not A:
+            if not monadic(bir): raise RsError("for loop without effect on outer variables")
+            fn = "(fun _ %s => do\n%s)" % (xp, "\n".join(emit_m(bir, 8)))
+            pre.append(("bind", "_", MCall("List.foldlM %s () %s" % (fn, lst))))
+        elif monadic(bir):
             fn = "(fun %s %s => do\n%s)" % (tup, xp, "\n".join(emit_m(bir, 8)))
             pre.append(("bind", tup, MCall("List.foldlM %s %s %s" % (fn, tup, lst))))
         else:
@@ -1028,6 +1115,17 @@ class FnTranslator:
             if e[1] == "format": return self.format_(e, env, pre)
             raise RsError("macro %s! in expression position is outside the subset" % e[1])
         if k == "struct": return self.struct_lit(e, env, pre)
+        if k == "array":
+            el = want[1] if want is not None and want[0] == "vec" else None
+            terms = []
+            for x in e[1]:
+                term, t = self.expr(x, env, pre, el)
+                if t == INTLIT: raise RsError("array literal of untyped integers")
+                if el is None: el = t
+                self.check_ty(t, el, "array element")
+                terms.append(term)
+            if el is None: raise RsError("empty array literal without a type")
+            return "[" + ", ".join(terms) + "]", ("vec", el)
         if k == "closure": raise RsError("closure outside a supported method argument")
         if k == "return": raise RsError("return in expression position")
         raise RsError("expression outside the subset: %s" % k)
@@ -1091,6 +1189,16 @@ class FnTranslator:
             return "%s.%s" % (en, lid(segs[-1])), ("enum", en)
         if segs[0] == "Self" and len(segs) == 2:
             c = self.u.const_value(segs[1], self.local_consts)
+            if c is not None and c[0] != "expr": return self.lit(c[0], c[1]), c[1]
+        if len(segs) == 2 and (segs[0] == "Self" or (self.impl is not None and segs[0] == self.impl)):
+            # associated constant of the translated impl with a non-integer (e.g. array) initialiser
+            c = self.u.const_value(segs[1], self.local_consts)
+            if c is not None and c[0] == "expr":
+                pre0 = []
+                term, t = self.expr(c[1], {}, pre0, c[2])
+                if pre0: raise RsError("constant %s with an effectful initialiser" % segs[1])
+                self.check_ty(t, c[2], "constant " + segs[1])
+                return "(%s : %s)" % (term, self.u.lt(t)), t
             if c is not None: return self.lit(c[0], c[1]), c[1]
         raise RsError("path %s is outside the subset" % "::".join(segs))
 
@@ -1297,6 +1405,7 @@ class FnTranslator:
     def call_translated(self, info, args_terms, env, pre, self_term=None):
         if getattr(info, "mut_params", None): raise RsError("call of a function with &mut parameters is outside the subset")
         for x in info.exts: self.add_ext(*x)
+        for o in getattr(info, "ext_ops", []): self.note_ext_opaque(o)
         for o in info.needs_deq:
             if o not in self.needs_deq: self.needs_deq.append(o)
         self.callees.append(info.lean_name)
@@ -1361,16 +1470,33 @@ class FnTranslator:
             return self.call_translated(info, a, env, pre)
         raise RsError("call of unknown function %s (not in this file, not declared external)" % "::".join(segs))
 
-    def call_external(self, name, args, env, pre):
+    def call_external(self, name, args, env, pre, recv=None):
+        """`recv` = (term, type) of an already evaluated receiver: an external *method* (spec key "receiver") takes
+        its receiver as first parameter.  A spec with "may_panic" is an `Rs.M`-valued parameter (the library function
+        may panic), bound like any other partial operation."""
         spec = self.u.externals[name]
         pts = [self.u.parse_type(s, self.impl) for s in spec["params"]]
         rt = self.u.parse_type(spec["ret"], self.impl)
-        if len(pts) != len(args): raise RsError("external %s arity" % name)
+        lead = [recv] if recv is not None else []
+        if len(pts) != len(args) + len(lead): raise RsError("external %s arity" % name)
+        for t in pts + [rt]:      # opaque types that occur only in the external's signature are type parameters too
+            for o in self.u.opaques_of(t, []): self.note_ext_opaque(o)
         terms = []
-        for a, pt in zip(args, pts):
+        for (term, t), pt in zip(lead, pts):
+            self.check_ty(t, pt, "receiver of external %s" % name)
+            terms.append(term if " " not in term or term.startswith("(") else "(" + term + ")")
+        for a, pt in zip(args, pts[len(lead):]):
             term, t = self.expr(a, env, pre, pt)
             self.check_ty(t, pt, "argument of external %s" % name)
             terms.append(term if " " not in term or term.startswith("(") else "(" + term + ")")
+        if not hasattr(self.u, "ext_specs"): self.u.ext_specs = {}
+        self.u.ext_specs["ext_" + name] = (pts, rt, bool(spec.get("may_panic")))
+        if spec.get("may_panic"):
+            lty = " → ".join([self.u.lt(t, False) for t in pts] + ["Rs.M " + self.u.lt(rt, False)])
+            self.add_ext("ext_" + name, lty)
+            v = self.fresh()
+            pre.append(("bind", v, MCall("ext_%s %s" % (name, " ".join(terms)))))
+            return v, rt, "val"
         lty = " → ".join([self.u.lt(t, False) for t in pts] + [self.u.lt(rt, False)])
         self.add_ext("ext_" + name, lty)
         return "(ext_%s %s)" % (name, " ".join(terms)), rt, "val"
@@ -1428,7 +1554,14 @@ class FnTranslator:
             return v, bt, "val"
         base, bt = self.expr(recv, env, pre, None)
         k = bt[0]
+        if m in self.u.externals and self.u.externals[m].get("receiver") is not None:
+            # declared external method: only on a receiver of exactly the declared (opaque or view) type
+            want_recv = self.u.parse_type(self.u.externals[m]["receiver"], self.impl)
+            if bt == want_recv and not ((k == "struct") and (bt[1], m) in self.u.fi.fns):
+                return self.call_external(m, args, env, pre, recv=(base, bt))
         if m in ("clone", "copied", "cloned", "as_ref", "to_owned", "borrow") and not args and k != "iter":
+            return base, bt, "val"
+        if m == "to_vec" and not args and k == "vec":
             return base, bt, "val"
         if m == "into" and not args:
             if want is not None and is_uint(want) and is_uint(bt) and UBITS[want[1]] >= UBITS[bt[1]]: return base, want, "val"
@@ -1586,10 +1719,23 @@ def fn_lean_lines(info):
     ops = []
     for _, t in info.params: u.opaques_of(t, ops)
     u.opaques_of(info.out_ty, ops)
+    for o in getattr(info, "ext_ops", []):
+        if o not in ops: ops.append(o)
+    def ext_ty(n, t):
+        spec = getattr(u, "ext_specs", {}).get(n)
+        if spec is None: return t
+        pts, rt, mp = spec
+        return " → ".join([u.lt(x, False) for x in pts] + [("Rs.M " if mp else "") + u.lt(rt, False)])
+    for n, t in info.exts:
+        spec = getattr(u, "ext_specs", {}).get(n)
+        if spec is not None:
+            for x in spec[0] + [spec[1]]:
+                for o in u.opaques_of(x, []):
+                    if o not in ops: ops.append(o)
     sig = ""
     if ops: sig += " {%s : Type}" % " ".join(ops)
     for o in info.needs_deq: sig += " [DecidableEq %s]" % o
-    for n, t in info.exts: sig += " (%s : %s)" % (n, t)
+    for n, t in info.exts: sig += " (%s : %s)" % (n, ext_ty(n, t))
     for n, t in info.params: sig += " (%s : %s)" % (lid(n), u.lt(t))
     rt = u.lt(info.out_ty, not info.monadic)
     text = info.text.replace("/-", "/ -").replace("-/", "- /")
@@ -1602,7 +1748,7 @@ def fn_lean_lines(info):
         cur += w + " "
     L.append(cur.rstrip())
     if info.exts:
-        L.append("   externals (trusted boundary, explicit parameters): " + ", ".join("%s : %s" % x for x in info.exts))
+        L.append("   externals (trusted boundary, explicit parameters): " + ", ".join("%s : %s" % (n, ext_ty(n, t)) for n, t in info.exts))
     if info.dropped:
         L.append("   dropped: " + "; ".join(info.dropped))
     L.append("-/")
